@@ -52,7 +52,7 @@ def plan(tier, seed):
 
 
 def mandatory(tier):
-    return [f"mode/{m}" for m in MODES] + ["affine", "translation", "translation/sigma", "scaling", "spacing", "bspline", "lame", "inverse_consistency/cube", "inverse_consistency/voxel", "inverse_consistency/world", "modules", "modules/elastic_constants", "default_spacing", "linear_tensor", "inverse_consistency/float_margin", "grad_loss/p/int/odd", "grad_loss/p/int/other", "grad_loss/p/float/other"]
+    return [f"mode/{m}" for m in MODES] + ["affine", "translation", "translation/sigma", "scaling", "spacing", "bspline", "lame", "inverse_consistency/cube", "inverse_consistency/voxel", "inverse_consistency/world", "modules", "modules/elastic_constants", "default_spacing", "linear_tensor", "inverse_consistency/float_margin", "inverse_consistency/dense_exact_pair", "grad_loss/p/int/odd", "grad_loss/p/int/other", "grad_loss/p/float/other"]
 
 
 def interior(a, m):
@@ -311,6 +311,17 @@ def case(ctx, i):
                 mask.reshape(-1)[0] = 1
                 vm = LF.inverse_consistency_loss(fwd, ident, grid=g, units=units, mask=mask)
                 ctx.close("masked_mean_counts_only_foreground", vm, want, 1e-6 * (1 + want), key=f"inverse_consistency/{units}/mask", **gi)
+            # dense exact inverse pair: a contraction M of the cube (affine, keeps the domain invariant) as dense field,
+            # its inverse M^-1 as dense field; linear interpolation reproduces affine fields, so the error is rounding
+            Hh, bh = F.invariant_affine(rng, tuple(g.shape), ac)
+            Mh = np.eye(D + 1) + float(rng.uniform(0.3, 0.9)) * F.hom(Hh, bh)
+            xc = F.norm_coords(tuple(g.shape), ac)
+            fwd_d = torch.tensor(F.affine_field(Mh, xc)[None], dtype=torch.float64)
+            inv_d = torch.tensor(F.affine_field(np.linalg.inv(Mh), xc)[None], dtype=torch.float64)
+            ctx.bucket("inverse_consistency/dense_exact_pair")
+            for units in ("cube", "voxel", "world"):
+                ed = LF.inverse_consistency_loss(fwd_d, inv_d, grid=g, units=units, reduction="none")
+                ctx.close("dense_exact_inverse_pair_has_zero_error", ed, torch.zeros_like(ed), 1e-5 * (1 + float(np.abs(sp).max()) * float(n.max())), key=f"inverse_consistency/{units}/dense_pair/ac={ac}", **gi)
             # non-rigid: small SVF and its inverse exponential
             from deepali.core.flow import expv
 
